@@ -64,7 +64,10 @@ RULE = (
     'pmap with some padding AND a program term that is non-finite on zero '
     'padding, or a zero-batch client among >= 2 clients. '
     'threads: 2-3 worker threads, up to 30 ops (60 thorough) from {set(b), '
-    'enter_context(b), exit_context, exit_context_by_exception, get, bind} with '
+    'enter_context(b), exit_context, exit_context_by_exception, '
+    'exit_context_by_BaseException (not an Exception, like KeyboardInterrupt / '
+    'GeneratorExit), make_context(b) + enter_the_made_context later (what a '
+    'context restores is the backend current at entry), get, bind} with '
     'b in {None, "jit", "debug", "pmap", 4 concrete backend objects}; the main '
     'thread optionally holds its own backend context meanwhile. Non-trivial: '
     'some get/bind is executed by a thread while another thread (or main) '
@@ -779,14 +782,26 @@ def _noop_step(state, batch):
   return state, ()
 
 
+class _LeaveByBaseException(BaseException):
+  """Like KeyboardInterrupt / GeneratorExit / CancelledError: not an Exception."""
+
+
 def _worker(inbox, outbox, resolve):
   """Executes one command per message; contexts are real `with` blocks."""
+
+  made = []   # context-manager objects created but not entered yet
 
   def interp():
     while True:
       op, arg = inbox.get()
       if op == 'stop':
         return 'stop'
+      if op == 'make':
+        # the context object is created now and entered later: what it restores
+        # on exit is the backend current at ENTRY
+        made.append(fedjax.for_each_client_backend(resolve(arg)))
+        outbox.put(('ok', None))
+        continue
       if op == 'get':
         outbox.put(('val', fedjax.get_for_each_client_backend()))
       elif op == 'bind':
@@ -795,20 +810,23 @@ def _worker(inbox, outbox, resolve):
       elif op == 'set':
         fedjax.set_for_each_client_backend(resolve(arg))
         outbox.put(('ok', None))
-      elif op == 'enter':
+      elif op in ('enter', 'enter_made'):
         how = None
+        cm = made.pop() if op == 'enter_made' else fedjax.for_each_client_backend(resolve(arg))
         try:
-          with fedjax.for_each_client_backend(resolve(arg)):
+          with cm:
             outbox.put(('ok', None))
             how = interp()
             if how == 'exit_exc':
               raise _LeaveByException()
-        except _LeaveByException:
+            if how == 'exit_base':
+              raise _LeaveByBaseException()
+        except (_LeaveByException, _LeaveByBaseException):
           pass
         if how == 'stop':
           return 'stop'
         outbox.put(('ok', None))
-      elif op in ('exit', 'exit_exc'):
+      elif op in ('exit', 'exit_exc', 'exit_base'):
         return op
       else:
         raise AssertionError(op)
@@ -829,14 +847,20 @@ def simulate_threads(case):
   n = case['threads']
   cur = ['none'] * n
   stack = [[] for _ in range(n)]
+  made = [[] for _ in range(n)]
   obs = []
   for i, (t, op, arg) in enumerate(case['ops']):
     if op == 'set':
       cur[t] = arg
+    elif op == 'make':
+      made[t].append(arg)
     elif op == 'enter':
       stack[t].append(cur[t])
       cur[t] = arg
-    elif op in ('exit', 'exit_exc'):
+    elif op == 'enter_made':
+      stack[t].append(cur[t])
+      cur[t] = made[t].pop()
+    elif op in ('exit', 'exit_exc', 'exit_base'):
       cur[t] = stack[t].pop()
     else:
       others = [cur[u] for u in range(n) if u != t] + [case['main'] or 'none']
@@ -868,6 +892,7 @@ def run_threads(case):
              for t in range(n)]
   cur = ['none'] * n
   stack = [[] for _ in range(n)]
+  made = [[] for _ in range(n)]
   idents = {}
 
   def turn(t, op, arg):
@@ -916,9 +941,14 @@ def run_threads(case):
         turn(t, op, arg)
         if op == 'set':
           cur[t] = arg
+        elif op == 'make':
+          made[t].append(arg)
         elif op == 'enter':
           stack[t].append(cur[t])
           cur[t] = arg
+        elif op == 'enter_made':
+          stack[t].append(cur[t])
+          cur[t] = made[t].pop()
         else:
           cur[t] = stack[t].pop()
       check_main(where)
@@ -953,7 +983,7 @@ def threads_labels(case):
   n_ops = len(ops)
   ls.append('ops:' + ('0-5' if n_ops <= 5 else '6-15' if n_ops <= 15 else '16-30' if n_ops <= 30 else '31+'))
   kinds = {op for _, op, _ in ops}
-  for kname in ('set', 'enter', 'exit', 'exit_exc', 'get', 'bind'):
+  for kname in ('set', 'enter', 'exit', 'exit_exc', 'exit_base', 'make', 'enter_made', 'get', 'bind'):
     if kname in kinds:
       ls.append('op:' + kname)
   if case['main']:
@@ -964,13 +994,13 @@ def threads_labels(case):
     ls.append('select_by_name')
   depth = [0] * case['threads']
   for t, op, arg in ops:
-    if op == 'enter':
+    if op in ('enter', 'enter_made'):
       depth[t] += 1
       if depth[t] >= 2:
         ls.append('nested_contexts')
       if sum(1 for x in depth if x) >= 2:
         ls.append('contexts_open_in_two_threads')
-    elif op in ('exit', 'exit_exc'):
+    elif op in ('exit', 'exit_exc', 'exit_base'):
       depth[t] -= 1
     elif op == 'set' and depth[t]:
       ls.append('set_inside_context')
@@ -983,7 +1013,7 @@ def threads_labels(case):
 
 def threads_nontrivial(case, ls):
   return ('observed_while_other_thread_differs' in ls and
-          ('op:exit' in ls or 'op:exit_exc' in ls))
+          ('op:exit' in ls or 'op:exit_exc' in ls or 'op:exit_base' in ls))
 
 
 @st.composite
@@ -992,19 +1022,31 @@ def threads_strategy(draw, tier):
   max_ops = 30 if tier == 'quick' else 60
   length = draw(st.integers(0, max_ops))
   depth = [0] * n
+  pending = [0] * n
   ops = []
   name = st.sampled_from(NAMES)
   for _ in range(length):
     t = draw(st.integers(0, n - 1))
-    op = draw(st.sampled_from(['set', 'enter', 'enter', 'exit', 'exit_exc', 'get', 'get', 'bind']))
-    if op in ('exit', 'exit_exc') and depth[t] == 0:
+    op = draw(st.sampled_from(['set', 'enter', 'enter', 'exit', 'exit_exc', 'exit_base', 'get',
+                               'get', 'bind', 'make', 'enter_made', 'enter_made']))
+    if op in ('exit', 'exit_exc', 'exit_base') and depth[t] == 0:
       op = 'get'
-    if op == 'enter' and depth[t] >= 4:
+    if op in ('enter', 'enter_made') and depth[t] >= 4:
       op = 'get'
-    if op in ('set', 'enter'):
+    if op == 'enter_made' and pending[t] == 0:
+      op = 'make'
+    if op == 'make' and pending[t] >= 2:
+      op = 'get'
+    if op in ('set', 'enter', 'make'):
       ops.append([t, op, draw(name)])
       if op == 'enter':
         depth[t] += 1
+      if op == 'make':
+        pending[t] += 1
+    elif op == 'enter_made':
+      ops.append([t, op, None])
+      pending[t] -= 1
+      depth[t] += 1
     else:
       ops.append([t, op, None])
       if op != 'get' and op != 'bind':
